@@ -1,6 +1,7 @@
 """Plain pytest replays of the defects found by the bbmc checks (no explorer involved): every case must be silent on the
 repaired tree. Run:  cd /verif && PYTHONHASHSEED=0 /venv/bin/python -m pytest -q regressions
-(VERIF_REPO=<tree> selects another tree; on the pinned snapshot every case fails.)"""
+(VERIF_REPO=<tree> selects another tree; on the pinned snapshot every case of D1-D12 fails; the D13 case fails on the
+tree just before its repair, /repo 27ce604.)"""
 import importlib
 import json
 import os
